@@ -161,9 +161,10 @@ theorem step_deliver (r : Run) (k : Nat) (ds : List Bytes)
   simp only [Run.step, Run.stepObs, hk, Datagram.decAll_encPkt _ (wf_map ds hs2), frames_map, a3, a4,
     Bool.false_eq_true, if_false]
 
-theorem step_send (r : Run) (x : Bytes) (hc : r.snd.closed = none) (hx : x.length < r.peerMax) :
+theorem step_send (r : Run) (x : Bytes) (hc : r.snd.closed = none) (hx : 9 + x.length ≤ r.peerMax) :
     r.step (.send x) = { r with snd := { r.snd with queue := r.snd.queue ++ [x] }, accepted := r.accepted ++ [x] } := by
-  have hbig : ¬ (1 + x.length > r.peerMax) := by omega
+  have hv := (Wire.varintSize_le x.length).2
+  have hbig : ¬ (1 + Wire.varintSize x.length + x.length > r.peerMax) := by omega
   have : Datagram.send r.peerMax r.snd x = ({ r.snd with queue := r.snd.queue ++ [x] }, .queued) := by
     unfold Datagram.send; simp [hc, hbig]
   simp only [Run.step, Run.stepObs, this, if_true]
